@@ -54,6 +54,10 @@ def gen_cases(tier, seed):
         yield {'family': 'composition', 'op': None, 'idx': 1000 + i, 'seed': seed}
     for i in range({'quick': 6, 'thorough': 60}[tier]):
         yield {'family': 'csv_file', 'op': None, 'idx': 5000 + i, 'seed': seed}
+    # a terminal consumer that stops after 10 rows: nothing upstream may go on pulling the sources on its own
+    for i, opn in enumerate(STREAMING):
+        if opn != 'concatenate':        # single-source pipelines only
+            yield {'family': 'early_stop', 'op': opn, 'idx': 7000 + i, 'seed': seed}
 
 
 def row_for(src, i, fields):
@@ -93,8 +97,12 @@ def run_case(case):
             fields.append([rng.choice(['zlate', 'znever']), 'late'])
         tables.append({'name': 'r%d' % s, 'fields': fields, 'rows': [row_for(s, 0, fields)],
                        'kind': rng.choice(['iter', 'load'])})
+    early = case['family'] == 'early_stop'
     if case['family'] == 'single' and case['op'] == 'dump_format':
         ops, length = ['validate'], 1
+    elif early:
+        ops, length = [case['op']], 1
+        nsrc = 1
     elif case['family'] == 'single':
         ops = [case['op']]
         length = 1
@@ -102,7 +110,7 @@ def run_case(case):
         ops = STREAMING
         length = rng.randint(3, 8)
     tables, specs, _ = dsl.gen_program(rng, length=length, ops=ops, tables=tables)
-    if case['family'] == 'single' and not specs:
+    if case['family'] in ('single', 'early_stop') and not specs and not early:
         # op not applicable to this shape (e.g. concatenate with one source): widen the shape once
         tables.append(dict(copy.deepcopy(tables[0]), name='r%d' % len(tables)))
         tables, specs, _ = dsl.gen_program(rng, length=1, ops=ops, tables=tables)
@@ -129,6 +137,8 @@ def run_case(case):
             for res in package:
                 def it(res=res):
                     for row in res:
+                        if early and stats['deliveries'] >= 10:
+                            return          # the consumer stops reading this resource
                         rid = row.get('id')
                         if isinstance(rid, int) and rid >= BASE:
                             j, seq = rid // BASE - 1, rid % BASE
@@ -162,6 +172,10 @@ def run_case(case):
         with boot.quiet():
             d.Flow(*steps).process()
         stats['pulled'] = sum(pulled)
+        if early:
+            # rows pulled although the consumer had stopped: must stay bounded as well
+            stats['max_initial'] = max(stats['max_initial'], pulled[0] - 10)
+            stats['max_steady'] = stats['max_initial']
         return stats
     try:
         res = [run_at(N) for N in sizes]
